@@ -192,6 +192,92 @@ Proof.
   apply spec_model_ops.
 Qed.
 
+(* ================= sibling loggers: hook lists are values ================= *)
+Lemma derive_cases ok w c k t :
+  derive ok w c k t =
+  if k =? 0 then with_core c else if k =? 1 then Lazy c
+  else if k =? 5 then (if ok w c (ELvl t) then Filter c (ELvl t) else c)
+  else if registers_hook k then Hooked c (Z.to_nat t) else c.
+Proof.
+  destruct k as [|p|p]; [reflexivity| |reflexivity].
+  do 3 (try destruct p as [p|p|]); reflexivity.
+Qed.
+
+(* what a logger's core must satisfy to BE the hook path p over the root *)
+Definition is_path (w : world) (root c : core) (p : list nat) : Prop :=
+  forall l, delivered w c l = delivered w root l /\
+            hooks_due w c l = hooks_due w root l ++ (if accepts w root l then p else []).
+
+Lemma is_path_root w root : is_path w root root [].
+Proof. intros l. split; [reflexivity|]. destruct (accepts w root l); rewrite app_nil_r; reflexivity. Qed.
+
+Lemma is_path_derive w root c p k t :
+  (k =? 5) = false -> is_path w root c p ->
+  is_path w root (derive increase_ok w c k t) (if registers_hook k then p ++ [Z.to_nat t] else p).
+Proof.
+  intros K5 HP. rewrite derive_cases, K5.
+  destruct (k =? 0) eqn:K0.
+  { apply Z.eqb_eq in K0. subst k. cbn [registers_hook Z.eqb orb]. intros l.
+    rewrite delivered_with_core, hooks_due_with_core. apply HP. }
+  destruct (k =? 1) eqn:K1.
+  { apply Z.eqb_eq in K1. subst k. cbn [registers_hook Z.eqb orb]. intros l. apply (HP l). }
+  destruct (registers_hook k); [|exact HP].
+  intros l. destruct (HP l) as [HD HH]. split; [exact HD|].
+  cbn [hooks_due]. rewrite HH. unfold accepts at 1. change (delivered w (Hooked c (Z.to_nat t)) l) with (delivered w c l).
+  unfold accepts. rewrite HD. rewrite <- app_assoc. f_equal.
+  destruct (delivered w root l); [reflexivity|reflexivity].
+Qed.
+
+Lemma is_path_nth w root cs ps :
+  Forall2 (is_path w root) cs ps -> forall j, is_path w root (nth j cs root) (nth j ps []).
+Proof.
+  intros H. induction H as [|c p cs ps Hc _ IH]; intros j.
+  - destruct j; apply is_path_root.
+  - destruct j; [exact Hc|apply IH].
+Qed.
+
+Lemma Forall2_snoc {A B} (R : A -> B -> Prop) l1 l2 a b :
+  Forall2 R l1 l2 -> R a b -> Forall2 R (l1 ++ [a]) (l2 ++ [b]).
+Proof. intros H Hab. apply Forall2_app; [exact H|constructor; [exact Hab|constructor]]. Qed.
+
+Theorem sibling_hooks_gen w root ops : forall cs ps,
+  Forall (fun o => keeps_delivery o = true) ops ->
+  Forall2 (is_path w root) cs ps ->
+  srun w root cs ops = sspec w root ps ops.
+Proof.
+  induction ops as [|o r IH]; intros cs ps HK HI; [reflexivity|].
+  inversion HK as [|o' r' Ho Hr]; subst o' r'.
+  destruct o as [j k t|j f l]; cbn [srun sspec].
+  - apply IH; [exact Hr|]. apply Forall2_snoc; [exact HI|].
+    cbn [keeps_delivery] in Ho. apply negb_true_iff in Ho.
+    apply is_path_derive; [exact Ho|apply is_path_nth; exact HI].
+  - rewrite logger_delivery_thm, logger_hooks_thm.
+    destruct (is_path_nth w root cs ps HI j l) as [HD HH]. rewrite HD, HH.
+    f_equal. apply IH; assumption.
+Qed.
+
+Theorem sibling_hooks_thm w root ops :
+  Forall (fun o => keeps_delivery o = true) ops ->
+  srun w root [root] ops = sspec w root [[]] ops.
+Proof.
+  intros HK. apply sibling_hooks_gen; [exact HK|]. constructor; [apply is_path_root|constructor].
+Qed.
+
+(* registering one more hook on a core: the hooks that were due before, then the new one iff the
+   entry is accepted - whatever else was derived from the same core *)
+Theorem hook_registration_thm w c h l e :
+  hooks_of (cores_of (check w (Hooked c h) l e)) =
+  hooks_of (cores_of e) ++ hooks_due w c l ++ (if accepts w c l then [h] else []).
+Proof. rewrite hooks_thm. reflexivity. Qed.
+
+(* a step of a wire history never changes a logger derived earlier: derivation only appends *)
+Theorem derivation_appends ok uv w c cs o :
+  exists tl, snd (next_state ok uv w c cs o) = cs ++ tl.
+Proof.
+  destruct o; cbn [next_state snd]; try (exists []; rewrite app_nil_r; reflexivity).
+  eexists. reflexivity.
+Qed.
+
 (* ================= the code before the fixes: the full statements fail ================= *)
 Definition w0 : world := fun _ => 0.
 
